@@ -30,7 +30,7 @@ class MethodInit:
              'positional': 'bool'}
     raises_only = ()
     modifies = ('self.method', 'self.name', 'self.context', 'self.positional', 'self.validator', 'self.validator_args',
-                'method.__pjrpc_meta__')
+                'method.__pjrpc_meta__', '$dict(method.__pjrpc_meta__)')
     cross_check = False
 
     def requires_fn(self, method, name, context, positional):
@@ -51,13 +51,15 @@ class RegistryAdd:
     types = {'self': 'pjrpc.server.dispatcher:MethodRegistry', 'maybe_method': '=UserMethod', 'name': 'opt:str',
              'context': 'opt:str', 'positional': 'bool'}
     raises_only = ()
-    modifies = ('$dict(self._registry)', 'maybe_method.__pjrpc_meta__')
+    modifies = ('$dict(self._registry)', 'maybe_method.__pjrpc_meta__', '$dict(maybe_method.__pjrpc_meta__)')
     cross_check = False
 
     def requires_fn(self, maybe_method, name, context, positional):
         return (isinstance(maybe_method.__name__, str) and len(maybe_method.__name__) > 0
                 and (self._prefix is None or isinstance(self._prefix, str))
-                and (not hasattr(maybe_method, '__pjrpc_meta__') or isinstance(maybe_method.__pjrpc_meta__, dict)))
+                and (not hasattr(maybe_method, '__pjrpc_meta__') or (
+                    isinstance(maybe_method.__pjrpc_meta__, dict)
+                    and not same(maybe_method.__pjrpc_meta__, self._registry))))
 
     def ensures_registered(self, maybe_method, name, context, positional, result):
         # C15: the set of callable names changes by exactly one key: the explicit name or the function's own
